@@ -71,7 +71,7 @@ def run_ops_property(prop, configs, modes, tier, seed, quick_count=450, thorough
     cases = []
     for weakly in modes:
         cases += ops.corpus_cases(weakly)
-        cand = ops.gen_ops_cases(rng, int(count * 2.2), weakly, max_atoms=max_atoms, prefix="w" if weakly else "s")
+        cand = ops.gen_ops_cases(rng, int(count * 2.2), weakly, max_atoms=max_atoms, prefix="w" if weakly else "s", partial_sig=True)
         # steer: keep all consistent candidates up to the count, and 10 % inconsistent ones
         mres0 = common.run_model(cand)
         good = [c for c in cand if mres0[c["id"]]["part"] is not None]
